@@ -282,6 +282,8 @@ def analyse(ctx, prop, jobs, limit, pen, tag, max_diag_qubits):
         H, ham = None, {"exc": type(e).__name__}
     if n >= 1 and (H is None or H.num_qubits != n):
         violate("C15", "no Hamiltonian on exactly n_qubits qubits although at least one qubit is needed", ham)
+    if n >= 1 and H is not None and n <= 70:
+        compare_table(ctx, jobs, limit, pen, H, inp)
     if n == 0:
         if drv is not None:
             r = drv.ask({"op": "enc.energy", "inst": inst_json, "limit": limit, "pen": pen_json(pen), "bits": []})
@@ -432,6 +434,42 @@ def z_terms(H):
     return out
 
 
+def compare_table(ctx, jobs, limit, pen, H, inp):
+    """the Hamiltonian as an OPERATOR: the implementation's coefficient table (equal strings merged, nothing dropped) against the canonical table of
+    Model/EncoderPoly.lean (`normalize (energyPolyOf …)`, proved to evaluate to the model's eigenvalue on every basis state).  Equal tables mean
+    equal eigenvalues on all 2^n basis states — at any qubit count.  Per entry: |impl − model| <= 1e-9·|model| + 1e-12·Σ|coefficients|."""
+    drv = ctx.lean("Encoder")
+    if drv is None or H is None:
+        return
+    try:
+        terms = z_terms(H.simplify(atol=0.0, rtol=0.0))
+    except ValueError:
+        return  # not diagonal: reported by the oracle
+    r = drv.ask({"op": "enc.table", "inst": [[list(o) for o in j] for j in jobs], "limit": limit, "pen": pen_json(pen)})
+    if "table" not in r:
+        ctx.disagree("enc.table", inp, "ok", r)
+        return
+    impl = {}
+    for m, c in terms:
+        impl[m] = impl.get(m, 0.0) + c
+    model = {}
+    for c, qs in r["table"]:
+        m = 0
+        for q in qs:
+            m |= 1 << q
+        model[m] = float(F(c))
+    scale = sum(abs(v) for v in model.values())
+    ctx.dist["operator-table compared"] += 1
+    ctx.extra["max_table_entries"] = max(ctx.extra.get("max_table_entries", 0), len(model))
+    ctx.extra["max_table_qubits"] = max(ctx.extra.get("max_table_qubits", 0), H.num_qubits)
+    for m in set(impl) | set(model):
+        a, b = impl.get(m, 0.0), model.get(m, 0.0)
+        if abs(a - b) > 1e-9 * abs(b) + 1e-12 * scale:
+            qs = [q for q in range(H.num_qubits) if m >> q & 1]
+            ctx.disagree("enc.table: coefficient of a Pauli-Z string", dict(inp, z_qubits=qs), a, b)
+            return
+
+
 def sparse_energy(terms, state):
     import math
 
@@ -456,7 +494,10 @@ def analyse_sparse(ctx, prop, jobs, limit, pen, tag):
     n = enc.n_qubits
     ctx.case(inp, True, tags=[tag, f"jobs:{len(jobs)}", "qubits:12+", "share0" if pen["share"] == 0 else "share>0"])
     try:
-        terms = z_terms(enc.get_problem_hamiltonian())
+        H_ = enc.get_problem_hamiltonian()
+        terms = z_terms(H_)
+        if H_.num_qubits <= 70:
+            compare_table(ctx, jobs, limit, pen, H_, inp)
     except Exception as e:  # noqa: BLE001
         violate("C15", "no diagonal Hamiltonian for a valid instance and limit", repr(e)[:100])
         return
@@ -550,7 +591,10 @@ def analyse_structured(ctx, prop, jobs, limit, pen, tag):
         return
     ctx.case(inp, True, tags=[tag, f"jobs:{len(jobs)}", "qubits:12+" if n >= 12 else f"qubits:{n}", "share0" if pen["share"] == 0 else "share>0"])
     try:
-        terms = z_terms(enc.get_problem_hamiltonian())
+        H_ = enc.get_problem_hamiltonian()
+        terms = z_terms(H_)
+        if H_.num_qubits <= 70:
+            compare_table(ctx, jobs, limit, pen, H_, inp)
     except Exception as e:  # noqa: BLE001
         violate("C15", "no diagonal Hamiltonian for a valid instance and limit", repr(e)[:100])
         return
